@@ -8,6 +8,7 @@ for seed in ${*:-1 2 3}; do
   for p in C01 C02 C03 C04 C05 C06 C07 C08 C09 C10 C11 C12 C13 C14 C15 C16 C17; do
     out=$(VERIF_SEED=$seed ./check $p quick 2>&1); rc=$?
     echo "seed=$seed $p rc=$rc $(echo "$out" | grep -E "obligations|BROKEN|Traceback" | tail -1) $(echo "$out" | grep -c '^VIOLATION') violations"
-    [ $rc -ne 0 ] && echo "$out" | grep -E "VIOLATION|BROKEN" | head -5
+    if [ $rc -ne 0 ]; then echo "$out" | grep -E "VIOLATION|BROKEN" | head -5; fi
   done
 done
+exit 0
